@@ -31,7 +31,7 @@ use std::sync::Arc;
 use suiron::*;
 
 fn atom(s: &str) -> Value { json!({"k": "atom", "s": s}) }
-fn int(n: i64) -> Value { json!({"k": "int", "n": n, "e": 0}) }
+fn int(n: i64) -> Value { json!({"k": "int", "n": n, "e": 0, "s": ""}) }
 fn var(s: &str) -> Value { json!({"k": "var", "n": 0, "s": s}) }
 fn anon() -> Value { json!({"k": "anon"}) }
 fn cx(f: &str, a: Vec<Value>) -> Value { json!({"k": "cx", "s": f, "a": a}) }
